@@ -6,6 +6,7 @@ import (
 	"encoding/json"
 
 	"github.com/buildkite/go-pipeline/ordered"
+	"github.com/buildkite/go-pipeline/warning"
 	"gopkg.in/yaml.v3"
 )
 
@@ -19,6 +20,7 @@ func init() {
 	vpRegister("c09_cmd_matrix", vpH_c09_cmd_matrix)
 	vpRegister("c09_cmd_cache", vpH_c09_cmd_cache)
 	vpRegister("c09_pipeline", vpH_c09_pipeline)
+	vpRegister("c09_mixed_keys", vpH_c09_mixed_keys)
 }
 
 // vpReparseStep: the stand-alone JSON decoder for one command step.
@@ -257,6 +259,56 @@ func vpH_c09_cmd_cache() {
 }
 
 // a small pipeline through the whole-document path (JSON read as YAML)
+// Steps that carry keys of two kind families (no `type`): whichever kind the
+// document gets, the marshalled form gets the same kind again, on the JSON leg
+// and on the YAML leg (marshalling sorts or re-orders keys: the decision must
+// not depend on their order).
+func vpH_c09_mixed_keys() {
+	keys := []string{"command", "plugins", "wait", "block", "input", "trigger", "group"}
+	i, j := vpInt(0, len(keys)-1), vpInt(0, len(keys)-1)
+	vpAssume(i != j)
+	val := func(k string) any {
+		switch k {
+		case "plugins":
+			return []any{"p#v1"}
+		case "wait":
+			return nil
+		}
+		return "v"
+	}
+	doc := vpMapOf("steps", []any{vpMapOf(keys[i], val(keys[i]), keys[j], val(keys[j]), "label", "l")})
+	p := new(Pipeline)
+	perr := ordered.Unmarshal(doc, p)
+	if (perr != nil && !warning.Is(perr)) || len(p.Steps) != 1 {
+		return // rejected documents have no normal form
+	}
+	k1 := vpKindOf(p.Steps[0])
+	b, err := json.Marshal(p)
+	vpAssert(err == nil, "the parsed pipeline marshals to JSON")
+	if err == nil {
+		var n yaml.Node
+		vpAssert(yaml.Unmarshal(b, &n) == nil, "the JSON form is readable")
+		p2 := new(Pipeline)
+		e2 := ordered.Unmarshal(&n, p2)
+		ok := (e2 == nil || warning.Is(e2)) && len(p2.Steps) == 1
+		vpAssert(ok && vpKindOf(p2.Steps[0]) == k1, "a step with keys of two kinds keeps its kind through the JSON round trip")
+		if ok {
+			b2, err2 := json.Marshal(p2)
+			vpAssert(err2 == nil && vpJEqual(b, b2), "its JSON normal form is a fixpoint")
+		}
+	}
+	yb, yerr := yaml.Marshal(p)
+	vpAssert(yerr == nil, "the parsed pipeline marshals to YAML")
+	if yerr == nil {
+		var n yaml.Node
+		vpAssert(yaml.Unmarshal(yb, &n) == nil, "the YAML form is readable")
+		p3 := new(Pipeline)
+		e3 := ordered.Unmarshal(&n, p3)
+		ok := (e3 == nil || warning.Is(e3)) && len(p3.Steps) == 1
+		vpAssert(ok && vpKindOf(p3.Steps[0]) == k1, "a step with keys of two kinds keeps its kind through the YAML round trip")
+	}
+}
+
 func vpH_c09_pipeline() {
 	g := vpStr(1, "a-c")
 	cmd := &CommandStep{Command: vpStrUpTo(1, "a-c"), Label: "l", Plugins: Plugins{{Source: "p", Config: map[string]any{"k": 1}}}}
